@@ -357,8 +357,10 @@ def make_jobs(ctx, positions, variant):
     rng = ctx.rng
     quick = ctx.quick
     budget = {"depth": 4, "nodes": 3000, "ms": 30} if quick else {"depth": 5, "nodes": 8000, "ms": 60}
-    probe_gos = (["depth 6", "depth 7", "depth 7", "nodes 8000", "nodes 20000", "nodes 40000"] if quick else
-                 ["depth 6", "depth 7", "depth 8", "depth 9", "depth 10", "depth 11", "nodes 30000", "nodes 100000", "nodes 300000"])
+    # depth-limited probes carry a node cap as well: with a random net a depth-7 tree is sometimes 100x the usual size
+    probe_gos = (["depth 6 nodes 60000", "depth 7 nodes 60000", "depth 7 nodes 60000", "nodes 8000", "nodes 20000", "nodes 40000"] if quick else
+                 ["depth 6 nodes 2000000", "depth 7 nodes 2000000", "depth 8 nodes 2000000", "depth 9 nodes 2000000", "depth 10 nodes 2000000",
+                  "depth 11 nodes 2000000", "nodes 30000", "nodes 100000", "nodes 300000"])
     plan = []
 
     def add(k, flavour, base, want=None, tries=30):
